@@ -1187,58 +1187,8 @@ fn static_shapes(src: &str, ast: &Ast, toks: &[Tk]) -> Vec<&'static str> {
             prev_code_line = Some(t.eline);
         }
     }
-    // F-C11-13: a blank line in the middle of an expression (the EmptyLine trivia item becomes a LineBreak
-    // item of the expression's group: the expression continues at column 0)
-    {
-        let code: Vec<&Tk> = toks.iter().filter(|t| !matches!(t.token, Token::Whitespace | Token::NewLine | Token::CommentSingle | Token::CommentMulti)).collect();
-        for w in code.windows(2) {
-            let (p, n) = (w[0], w[1]);
-            if n.line < p.eline + 2 {
-                continue;
-            }
-            // is there a blank line between the two tokens?
-            let between = &src[p.eb..n.sb];
-            let parts: Vec<&str> = between.split('\n').collect();
-            let blank = parts.len() >= 3 && parts[1..parts.len() - 1].iter().any(|l| l.trim().is_empty());
-            if !blank {
-                continue;
-            }
-            // innermost node that covers both tokens
-            let (ps, ne) = ((p.line, p.col), (n.eline, n.ecol));
-            let mut best: Option<(&Node, (u32, u32, u32, u32))> = None;
-            for nd in ast.nodes() {
-                let sp = ast.span(nd.span);
-                let (s0, e0) = ((sp.start.line, sp.start.column), (sp.end.line, sp.end.column));
-                if s0 <= ps && ne <= e0 {
-                    let key = (e0.0 - s0.0, u32::MAX - s0.0, u32::MAX - s0.1, e0.1);
-                    if best.as_ref().is_none_or(|(_, k)| key < *k) {
-                        best = Some((&nd.node, key));
-                    }
-                }
-            }
-            let structured = match best.map(|b| b.0) {
-                None => true,
-                Some(nd) => matches!(nd, Node::MainBlock { .. } | Node::Block(_) | Node::Map { braces: false, .. } | Node::Match { .. }
-                    | Node::Switch(_) | Node::If(_) | Node::Try(_) | Node::For(_) | Node::While { .. } | Node::Until { .. }
-                    | Node::Loop { .. } | Node::Function(_) | Node::MatchArm { .. } | Node::SwitchArm { .. }),
-            };
-            if !structured {
-                v.push("blank_line_in_expression");
-            }
-        }
-    }
-    // F-C11-14: a comment between `from` and `import`
-    {
-        let mut after_from = false;
-        for t in toks.iter() {
-            match t.token {
-                Token::From => after_from = true,
-                Token::Import => after_from = false,
-                Token::CommentSingle if after_from => v.push("comment_between_from_and_import"),
-                _ => {}
-            }
-        }
-    }
+    // (the shapes of F-C11-13 blank line inside an expression and F-C11-14 comment between `from` and
+    // `import` were removed when those findings were fixed: f33d8e8, 506c2fd)
     // F-C11-15: an expression that ends in an indented block (function with a block body, block if …) as an
     // element inside brackets / parentheses: the closing bracket or the next element is appended to the block's last line
     for n in ast.nodes() {
@@ -1869,6 +1819,10 @@ impl Gen {
                 for (i, it) in items.iter().enumerate() {
                     let comma = if i + 1 < items.len() || self.rng.chance(1, 2) { "," } else { "" };
                     s.push_str(&format!("{pad}{it}{comma}\n"));
+                    // a blank line inside the expression (dropped by the formatter since f33d8e8)
+                    if i + 1 < items.len() && self.rng.chance(1, 6) {
+                        s.push('\n');
+                    }
                 }
                 s.push_str(&format!("{}]", " ".repeat(ind)));
                 s
@@ -2255,8 +2209,8 @@ impl Gen {
                 let l = if !self.lists.is_empty() { self.rng.pick(&self.lists).clone() } else { "[3, 1, 2]".to_string() };
                 let p2 = " ".repeat(st);
                 let t = match self.rng.below(3) {
-                    0 => format!("print {l}\n{pad}{p2}.each |v| v + 1\n{pad}{p2}.keep |v| v > 1\n{pad}{p2}.to_tuple()"),
-                    1 => { let a = self.num(1); let b = self.num(1); let c = self.num(1); format!("print {a} +\n{pad}{p2}{b} +\n{pad}{p2}{c}") }
+                    0 => { let bl = if self.rng.chance(1, 4) { "\n" } else { "" }; format!("print {l}\n{pad}{p2}.each |v| v + 1\n{bl}{pad}{p2}.keep |v| v > 1\n{pad}{p2}.to_tuple()") }
+                    1 => { let a = self.num(1); let b = self.num(1); let c = self.num(1); let bl = if self.rng.chance(1, 4) { "\n" } else { "" }; format!("print {a} +\n{bl}{pad}{p2}{b} +\n{pad}{p2}{c}") }
                     _ => { let a = self.num(1); let b = self.num(1); format!("print {a}\n{pad}{p2}+ {b}") }
                 };
                 self.line(ind, &t);
@@ -2427,8 +2381,6 @@ const FINDINGS: &[(&str, &str, &[&str])] = &[
     ("F-C11-6", "input_line_wider_than_line_length", &["2:", "3:", "5:"]),
     ("F-C11-7", "fmt_skip_multiline", &["2:", "3:", "5:"]),
     ("F-C11-12", "fmt_skip_short_span", &["2:", "3:", "5:", "6:"]),
-    ("F-C11-13", "blank_line_in_expression", &["2:", "3:", "5:"]),
-    ("F-C11-14", "comment_between_from_and_import", &["2:", "3:", "5:"]),
     ("F-C11-15", "block_in_brackets", &["2:", "3:", "5:"]),
     ("F-C11-9", "block_expr_operand", &["2:", "3:", "5:"]),
     ("F-C11-9", "line_starts_with_minus", &["2:", "3:", "5:"]),
